@@ -541,14 +541,15 @@ func TestC05(t *testing.T) {
 				val := new(big.Int).Sub(bal, new(big.Int).Mul(big.NewInt(21000), price))
 				// the refund must cover the old transaction once more (value + fee), or its second execution
 				// would fail for lack of funds whatever the nonce
-				refund := new(big.Int).Add(bal, new(big.Int).Mul(big.NewInt(int64(1+u.N(100, "refund"))), big.NewInt(1000000000000000000)))
-				if val.Sign() > 0 && w.Bal(f.A.Addr, "OLT").Cmp(new(big.Int).Mul(refund, big.NewInt(2))) > 0 {
+				refund := new(big.Int).Add(bal, big.NewInt(int64(u.N(1000, "refund"))))
+				// (the recipient of the drained value pays it back)
+				if val.Sign() > 0 && w.Bal(f.B.Addr, "OLT").Cmp(big.NewInt(1000000000000000000)) > 0 {
 					to := ethcmn.BytesToAddress(f.B.Addr)
 					nonce := w.OlvmNext[f.E.Name]
 					tx = txgen.OLVM(f.E, txgen.OLVMArgs{ChainID: w.P.ChainID, Nonce: nonce, To: &to, Value: val,
 						Fee: txgen.Fee{Price: price, Cur: "OLT", Gas: 21000}})
 					c.Drain = true
-					c.Refund = txgen.Send(f.A, f.A.Addr, f.E.OLAddr(), txgen.Amt("OLT", refund), w.Fee, "c05-refund").Bytes
+					c.Refund = txgen.Send(f.B, f.B.Addr, f.E.OLAddr(), txgen.Amt("OLT", refund), w.Fee, "c05-refund").Bytes
 				}
 			}
 		}
